@@ -326,5 +326,6 @@ pub fn property() -> Property {
             direct: Some(direct),
         }],
         assumptions: &["within one process every HashMap::default() draws fresh RandomState keys, so repetition already varies hash seeds; ASLR/hash-key dependence stable within a process is covered by the two-process digest comparison"],
+        enumerate: None,
     }
 }
